@@ -96,3 +96,13 @@ func (k *ExtendedKey) VerifWF() bool {
 //@   trusted
 //@   requires k != nil
 //@   modifies k, k.key, k.pubKey, k.chainCode, k.parentFP
+
+// BIP-32 version bytes follow the kind of key: private keys carry the private version of the network, public keys
+// the public one
+//@ func (*ExtendedKey).SetNet
+//@   props C14 C19
+//@   requires k != nil && net != nil
+//@   modifies &k.version
+//@   ensures len(k.version) == 4
+//@   ensures k.isPrivate ==> bytesEq(k.version, 0, net.HDPrivateKeyID, 0, 4)
+//@   ensures !k.isPrivate ==> bytesEq(k.version, 0, net.HDPublicKeyID, 0, 4)
